@@ -1,7 +1,12 @@
-import Proofs.NamespaceC10
+import Proofs.NamespaceBook
+import Proofs.NamespaceExample
 /-! C10 - namespace reading is complete, ordered and deterministic (model level).
     The enumeration of the file system is the list `files`; "enumeration order / hash seed" = a permutation of it;
-    directory arguments are canonical paths (resolution of spellings and symlinks is `pathlib`: correspondence only). -/
+    directory arguments are canonical paths (resolution of spellings and symlinks is `pathlib`: correspondence only).
+    Completeness and closure are proved through the invariant of the target loop (`Ns.BInv`, Proofs/NamespaceBook.lean):
+    `C10.complete`, `C10.none_missing`, `C10.complete_paths` (one composite per definition file under the root, built from
+    that file), `C10.closure`, `C10.closure_exact` (direct = the targets, transitive = exactly the rest of the nesting
+    closure, disjoint), `C10.same_types` (same types as `read_namespace`). -/
 open Ns
 
 /-- The directory rule: accepted iff no directory lies inside another one and - when collisions are disallowed - no two
@@ -145,19 +150,180 @@ theorem C10.target_order_invariant (files targets targets' : List FileEntry) (ro
           simp only
           rw [hdirs _ _ h2 h1, sortDefs_perm_eq hrel (hd _ h2)]
 
-/-- Full statements whose remaining part (one composite per target with the target's key; direct = targets,
-    transitive = dependency closure minus targets, disjoint) is validated by the correspondence only. -/
-def C10.complete_statement : Prop :=
-  ∀ (files : List FileEntry) (root : Path) (lookups : List Path) (ac au : Bool) (d t : List Ty) (p : List Nat) (ts : List Def),
-    DistinctFileKeys files → collect true files [root] = .ok ts →
-    readNamespace files root lookups ac au = ⟨.ok (d, t), p⟩ → d.map Ty.key = ts.map Def.key
+/-- `read_namespace` returns exactly one composite per definition file under the root directory, carrying that file's
+    (name, version), in the order of the (sorted) target list - none missing, none duplicated, none from a lookup
+    directory.  (No hypothesis on the enumeration is needed: two target files with the same (name, version) - finding F9 -
+    are answered `Err.dupKey` by the model.) -/
+theorem C10.complete (files : List FileEntry) (root : Path) (lookups : List Path) (ac au : Bool) (d t : List Ty) (p : List Nat)
+    (ts : List Def) (hts : collect true files [root] = .ok ts)
+    (h : readNamespace files root lookups ac au = ⟨.ok (d, t), p⟩) : d.map Ty.key = ts.map Def.key := by
+  rcases readNamespace_inv hts h with ⟨rfl, rfl, _⟩ | ⟨L, hL, hc, hk, hu⟩
+  · rfl
+  · rw [completeRead_direct_keys hL (hypP_of_dirs hk fun x hx => (hu x hx).fromDirs) hc,
+      sortDefs_keys_of_sorted (collect_sorted hts)]
 
-def C10.closure_statement : Prop :=
-  ∀ (files targets : List FileEntry) (roots lookups : List Path) (au : Bool) (d t : List Ty) (p : List Nat) (ts : List Def),
-    DistinctFileKeys files → mapMDefs true targets = .ok ts → ts.Pairwise (fun a b => a.key ≠ b.key) →
-    readFiles files targets roots lookups au = ⟨.ok (d, t), p⟩ →
-      d.map Ty.key = (sortDefs ts).map Def.key ∧ (∀ x ∈ t, x.key ∉ d.map Ty.key) ∧
-      (∀ x ∈ d ++ t, ∀ n ∈ x.nested, ∃ y ∈ d ++ t, y.key = n.key)
+/-- the statement as it was recorded -/
+theorem C10.complete_statement :
+    ∀ (files : List FileEntry) (root : Path) (lookups : List Path) (ac au : Bool) (d t : List Ty) (p : List Nat) (ts : List Def),
+      DistinctFileKeys files → collect true files [root] = .ok ts →
+      readNamespace files root lookups ac au = ⟨.ok (d, t), p⟩ → d.map Ty.key = ts.map Def.key :=
+  fun files root lookups ac au d t p ts _ hts h => C10.complete files root lookups ac au d t p ts hts h
+
+/-- ... and every definition file under the root has its composite in the result -/
+theorem C10.none_missing (files : List FileEntry) (root : Path) (lookups : List Path) (ac au : Bool) (d t : List Ty) (p : List Nat)
+    (h : readNamespace files root lookups ac au = ⟨.ok (d, t), p⟩) :
+    ∀ e ∈ files, e.dir = root → isDefinitionFile e.fname = true →
+      ∃ t0, mkDef true e = .ok t0 ∧ ∃ ty ∈ d, ty.key = t0.key := by
+  intro e he hdir hdef
+  obtain ⟨ts, hts⟩ := readNamespace_ok_collect h
+  have hk := C10.complete files root lookups ac au d t p ts hts h
+  unfold collect at hts
+  split at hts
+  · rename_i ds hds
+    cases hts
+    obtain ⟨x, hx, hm⟩ := mapMDefs_complete hds e (List.mem_filter.mpr ⟨he, by simp [hdir, hdef]⟩)
+    have : x.key ∈ d.map Ty.key := by rw [hk]; exact List.mem_map.mpr ⟨x, mem_sortDefs'.mpr hx, rfl⟩
+    obtain ⟨ty, hty, e'⟩ := List.mem_map.mp this
+    exact ⟨x, hm, ty, hty, e'⟩
+  · cases hts
+
+/-- Each returned composite is built from its file: path, root directory (= the root argument) and port-ID are the
+    file's, the type is the stand-alone type of the file's definition.  (`DistinctFileKeys`: two files with the same
+    (name, version) are finding F9.) -/
+theorem C10.complete_paths (files : List FileEntry) (root : Path) (lookups : List Path) (ac au : Bool) (d t : List Ty) (p : List Nat)
+    (hd : DistinctFileKeys files) (h : readNamespace files root lookups ac au = ⟨.ok (d, t), p⟩) :
+    ∀ ty ∈ d, ty.info.root = root ∧ ∃ e ∈ files, e.dir = root ∧ isDefinitionFile e.fname = true ∧
+      ty.info.path = e.dir ++ e.sub ++ [e.fname] ∧ ∃ t0, mkDef true e = .ok t0 ∧ ty.key = t0.key ∧ ty.info.fpid = t0.fpid := by
+  obtain ⟨ts, hts⟩ := readNamespace_ok_collect h
+  rcases readNamespace_inv hts h with ⟨rfl, rfl, _⟩ | ⟨L, hL, hc, hk, hu⟩
+  · intro ty hty; cases hty
+  · intro ty hty
+    obtain ⟨t0, ht0, hk, hp, hr, hf, _⟩ := completeRead_direct_paths hL (hyp_of_files hd hk hu) hc ty hty
+    obtain ⟨e, he, hdir, hdef, hm⟩ := collect_mem hts t0 ht0
+    simp only [List.mem_singleton] at hdir
+    obtain ⟨m1, m2, _⟩ := mkDef_path hm
+    exact ⟨by rw [hr, m2, hdir], e, he, hdir, hdef, by rw [hp, m1], t0, hm, hk, hf⟩
+
+/-- `read_files`: `direct` is one composite per target file with the target's (name, version), in sorted order; no two
+    returned types have the same (name, version), so `transitive` is disjoint from `direct`; and `direct ∪ transitive` is
+    closed under nesting: the whole dependency closure of the targets is returned. -/
+theorem C10.closure (files targets : List FileEntry) (roots lookups : List Path) (au : Bool) (d t : List Ty) (p : List Nat)
+    (ts : List Def) (hts : mapMDefs true targets = .ok ts)
+    (h : readFiles files targets roots lookups au = ⟨.ok (d, t), p⟩) :
+    d.map Ty.key = (sortDefs ts).map Def.key ∧ (∀ x ∈ t, x.key ∉ d.map Ty.key) ∧
+      (t ++ d).Pairwise (fun a b => a.key ≠ b.key) ∧
+      (∀ x ∈ d ++ t, ∀ n ∈ x.nested, ∃ y ∈ d ++ t, y.key = n.key) := by
+  rcases readFiles_inv hts h with ⟨rfl, rfl, rfl⟩ | ⟨L, hL, hc, hk, hu, _⟩
+  · refine ⟨by simp [sortDefs], ?_, List.Pairwise.nil, ?_⟩
+    · intro x hx; cases hx
+    · intro x hx; cases hx
+  · have H := hypP_of_dirs hk hu
+    refine ⟨?_, completeRead_disjoint hL H hc, completeRead_distinct hL H hc, completeRead_closed hL H hc⟩
+    rw [completeRead_direct_keys hL H hc, sortDefs_keys_of_sorted (sortDefs_sorted ts)]
+
+/-- the statement as it was recorded -/
+theorem C10.closure_statement :
+    ∀ (files targets : List FileEntry) (roots lookups : List Path) (au : Bool) (d t : List Ty) (p : List Nat) (ts : List Def),
+      DistinctFileKeys files → mapMDefs true targets = .ok ts → ts.Pairwise (fun a b => a.key ≠ b.key) →
+      readFiles files targets roots lookups au = ⟨.ok (d, t), p⟩ →
+        d.map Ty.key = (sortDefs ts).map Def.key ∧ (∀ x ∈ t, x.key ∉ d.map Ty.key) ∧
+        (∀ x ∈ d ++ t, ∀ n ∈ x.nested, ∃ y ∈ d ++ t, y.key = n.key) :=
+  fun files targets roots lookups au d t p ts _ hts _ h =>
+    have := C10.closure files targets roots lookups au d t p ts hts h
+    ⟨this.1, this.2.1, this.2.2.2⟩
+
+/-- the same closure facts for `read_namespace` (whose caller keeps `direct`) -/
+theorem C10.closure_namespace (files : List FileEntry) (root : Path) (lookups : List Path) (ac au : Bool) (d t : List Ty)
+    (p : List Nat) (h : readNamespace files root lookups ac au = ⟨.ok (d, t), p⟩) :
+    (∀ x ∈ t, x.key ∉ d.map Ty.key) ∧ (t ++ d).Pairwise (fun a b => a.key ≠ b.key) ∧
+      (∀ x ∈ d ++ t, ∀ n ∈ x.nested, ∃ y ∈ d ++ t, y.key = n.key) := by
+  obtain ⟨ts, hts⟩ := readNamespace_ok_collect h
+  rcases readNamespace_inv hts h with ⟨_, rfl, rfl⟩ | ⟨L, hL, hc, hk, hu⟩
+  · refine ⟨?_, List.Pairwise.nil, ?_⟩
+    · intro x hx; cases hx
+    · intro x hx; cases hx
+  · have H := hypP_of_dirs hk fun x hx => (hu x hx).fromDirs
+    exact ⟨completeRead_disjoint hL H hc, completeRead_distinct hL H hc, completeRead_closed hL H hc⟩
+
+/-- A direct type of `read_files` is built from its target file: path, root directory, port-ID, and it is the stand-alone
+    type of the target's definition.  Here the targets must be files of the enumeration (`hsub`) with pairwise distinct
+    (name, version) in the enumeration (F9). -/
+theorem C10.closure_paths (files targets : List FileEntry) (roots lookups : List Path) (au : Bool) (d t : List Ty) (p : List Nat)
+    (ts : List Def) (hd : DistinctFileKeys files) (hsub : ∀ e ∈ targets, e ∈ files) (hts : mapMDefs true targets = .ok ts)
+    (h : readFiles files targets roots lookups au = ⟨.ok (d, t), p⟩) :
+    ∀ ty ∈ d, ∃ e ∈ targets, ∃ t0, mkDef true e = .ok t0 ∧ ty.key = t0.key ∧
+      ty.info.path = e.dir ++ e.sub ++ [e.fname] ∧ ty.info.root = e.dir ∧ ty.info.fpid = t0.fpid := by
+  rcases readFiles_inv hts h with ⟨rfl, rfl, rfl⟩ | ⟨L, hL, hc, hk, _, hu⟩
+  · intro ty hty; cases hty
+  · intro ty hty
+    obtain ⟨t0, ht0, hk, hp, hr, hf, _⟩ := completeRead_direct_paths hL (hyp_of_files hd hk (hu hsub)) hc ty hty
+    obtain ⟨e, he, hm⟩ := mapMDefs_mem hts t0 (mem_sortDefs'.mp ht0)
+    obtain ⟨m1, m2, _⟩ := mkDef_path hm
+    exact ⟨e, he, t0, hm, hk, by rw [hp, m1], by rw [hr, m2], hf⟩
+
+/-- "Exactly the rest of the dependency closure": a type is returned by `read_files` (as direct or transitive) iff it is a
+    direct type or nested, at some depth, in one (`NestReach`) - nothing is missing and nothing else is returned.
+    (`DistinctFileKeys`, `hsub`: (name, version) identifies a file of the enumeration and the targets are among them; F9.) -/
+theorem C10.closure_exact (files targets : List FileEntry) (roots lookups : List Path) (au : Bool) (d t : List Ty) (p : List Nat)
+    (ts : List Def) (hd : DistinctFileKeys files) (hsub : ∀ e ∈ targets, e ∈ files) (hts : mapMDefs true targets = .ok ts)
+    (h : readFiles files targets roots lookups au = ⟨.ok (d, t), p⟩) : ∀ x, x ∈ d ++ t ↔ NestReach d x := by
+  rcases readFiles_inv hts h with ⟨_, rfl, rfl⟩ | ⟨L, hL, hc, hk, _, hu⟩
+  · intro x
+    constructor
+    · intro hx; cases hx
+    · intro hx
+      induction hx with
+      | root hy => cases hy
+      | step _ _ ih => cases ih
+  · exact completeRead_exact hL (hyp_of_files hd hk (hu hsub)) hc
+
+/-- the same for `read_namespace` -/
+theorem C10.closure_exact_namespace (files : List FileEntry) (root : Path) (lookups : List Path) (ac au : Bool) (d t : List Ty)
+    (p : List Nat) (hd : DistinctFileKeys files) (h : readNamespace files root lookups ac au = ⟨.ok (d, t), p⟩) :
+    ∀ x, x ∈ d ++ t ↔ NestReach d x := by
+  obtain ⟨ts, hts⟩ := readNamespace_ok_collect h
+  rcases readNamespace_inv hts h with ⟨_, rfl, rfl⟩ | ⟨L, hL, hc, hk, hu⟩
+  · intro x
+    constructor
+    · intro hx; cases hx
+    · intro hx
+      induction hx with
+      | root hy => cases hy
+      | step _ _ ih => cases ih
+  · exact completeRead_exact hL (hyp_of_files hd hk hu) hc
+
+/-- The types `read_files` returns are equal to those `read_namespace` yields for the same files: whenever the two calls
+    look at the same set of directories, two returned types (direct or transitive, either call) with the same
+    (name, version) are equal. -/
+theorem C10.same_types (files targets : List FileEntry) (root : Path) (roots lookups lookups' : List Path) (ac au : Bool)
+    (d1 t1 d2 t2 : List Ty) (p1 p2 : List Nat) (ts : List Def)
+    (hd : DistinctFileKeys files) (hsub : ∀ e ∈ targets, e ∈ files) (hts : mapMDefs true targets = .ok ts)
+    (hdirs : ∀ q, q ∈ dedupPaths (lookups ++ [root]) ↔ q ∈ dedupPaths (lookups' ++ ts.map Def.root ++ roots))
+    (h1 : readNamespace files root lookups ac au = ⟨.ok (d1, t1), p1⟩)
+    (h2 : readFiles files targets roots lookups' au = ⟨.ok (d2, t2), p2⟩) :
+    ∀ x ∈ d1 ++ t1, ∀ y ∈ d2 ++ t2, x.key = y.key → x = y := by
+  obtain ⟨ns, hns⟩ := readNamespace_ok_collect h1
+  rcases readNamespace_inv hns h1 with ⟨_, rfl, rfl⟩ | ⟨L, hL, hc1, hk1, hu1⟩
+  · intro x hx; cases hx
+  · rcases readFiles_inv hts h2 with ⟨_, rfl, rfl⟩ | ⟨L', hL', hc2, hk2, hu2', hu2⟩
+    · intro x _ y hy; cases hy
+    · have hLL : L' = L := by
+        rw [collect_congr_dirs false files hdirs, hL'] at hL
+        exact Except.ok.inj hL
+      subst hLL
+      intro x hx y hy hk
+      have g1 := (completeRead_good hL (hypP_of_dirs hk1 fun x hx => (hu1 x hx).fromDirs) hc1 x hx).mono
+        (ts' := ns ++ sortDefs ts) (fun _ h => List.mem_append_left _ h)
+      have g2 := (completeRead_good hL' (hypP_of_dirs hk2 hu2') hc2 y hy).mono
+        (ts' := ns ++ sortDefs ts) (fun _ h => List.mem_append_right _ h)
+      refine tyUniq (hyp_of_files hd hk1 ?_) g1 g2 hk
+      intro a ha
+      rcases ha with ha | ha
+      · exact hu1 a (Or.inl ha)
+      · rcases List.mem_append.mp ha with ha | ha
+        · exact hu1 a (Or.inr ha)
+        · obtain ⟨e, he, tg, hdir, hm⟩ := hu2 hsub a (Or.inr ha)
+          exact ⟨e, he, tg, (hdirs _).mpr hdir, hm⟩
 
 section NonVacuity
 /- `decide` cannot unfold the well-founded recursions (`List.mergeSort`, `readObj`): successful reads are exhibited by
@@ -173,4 +339,30 @@ example : readNamespace fs.reverse ["w", "ns"] [["w", "other"]] true false = rea
 example : dirsCheck [["w", "ns"], ["w", "ns", "x"]] true = .error .nestedRoot := by decide +kernel
 example : dirsCheck [["w", "ns"], ["v", "NS"]] false = .error .rootNameCollision ∧ dirsCheck [["w", "ns"], ["v", "NS"]] true = .ok () := by
   decide +kernel
+
+/- a worked instance (Proofs/NamespaceExample.lean): `ns/A.1.0` has a field of type `ns.B.1.0`, `other/C.1.0` is unrelated;
+   `read_files [A]` gives direct = [A], transitive = [B]; `read_namespace ns` gives [A, B] -/
+open Ns.Example in
+example : readFiles Example.fs [eA] [] [["w", "other"]] false = ⟨.ok ([TA], [TB]), []⟩ ∧
+    readNamespace Example.fs ["w", "ns"] [["w", "other"]] true false = ⟨.ok ([TA, TB], []), []⟩ := ⟨evalFiles, evalNs⟩
+open Ns.Example in
+example : [TA, TB].map Ty.key = [dA true, dB true].map Def.key :=
+  C10.complete Example.fs _ _ _ _ _ _ _ _ collectT evalNs
+open Ns.Example in
+example := C10.complete_paths Example.fs ["w", "ns"] [["w", "other"]] true false [TA, TB] [] [] distinct evalNs
+open Ns.Example in
+example := C10.closure Example.fs [eA] [] [["w", "other"]] false [TA] [TB] [] [dA true] (by simp [mapMDefs, mkA]) evalFiles
+open Ns.Example in
+example := C10.closure_paths Example.fs [eA] [] [["w", "other"]] false [TA] [TB] [] [dA true] distinct (by decide +kernel)
+  (by simp [mapMDefs, mkA]) evalFiles
+open Ns.Example in
+example := C10.closure_exact Example.fs [eA] [] [["w", "other"]] false [TA] [TB] [] [dA true] distinct (by decide +kernel)
+  (by simp [mapMDefs, mkA]) evalFiles
+open Ns.Example in
+example : ∀ x ∈ [TA, TB] ++ [], ∀ y ∈ [TA] ++ [TB], x.key = y.key → x = y :=
+  C10.same_types Example.fs [eA] ["w", "ns"] [] [["w", "other"]] [["w", "other"]] true false [TA, TB] [] [TA] [TB] [] [] [dA true]
+    distinct (by decide +kernel) (by simp [mapMDefs, mkA]) (by
+      have h1 : dedupPaths ([["w", "other"]] ++ [["w", "ns"]]) = Example.dirs := by decide +kernel
+      have h2 : dedupPaths ([["w", "other"]] ++ List.map Def.root [dA true] ++ []) = Example.dirs := by decide +kernel
+      rw [h1, h2]; exact fun _ => Iff.rfl) evalNs evalFiles
 end NonVacuity
